@@ -185,8 +185,9 @@ class SignEval:
         self.memo[l] = None   # cycle guard -> Top
         defs = fn.defs.get(l, [])
         if fn.is_param(l) or not defs:
-            self.memo[l] = TOP
-            return TOP
+            # nothing is known about a parameter except what the dominating sign tests say (`if is_negative(&x) { .. }`)
+            self.memo[l] = self.refine_local(l, TOP) if fn.is_param(l) else TOP
+            return self.memo[l]
         acc = frozenset()
         for (bb, idx, kind, node) in defs:
             if node['dst']['p']:
@@ -476,6 +477,17 @@ def requirements_hold(fn, ev, tf, entry, prog=None):
             hit = False
             for (locals_, fields, pred, truth) in getattr(ev, 'tests', []):
                 if pred == req['test'] and truth == req['truth'] and any(f == req['field'] for of, f in fields):
+                    hit = True
+            if not hit and prog is not None and fn.kind in ('Fn', 'AssocFn'):
+                # the test is made by every caller of this helper, before the call
+                sites = [c for c in prog.callers.get(fn.name, []) if not mir.is_testsupport(c.fn.name) and not c.inlined]
+
+                def site_has(c):
+                    ev2 = SignEval(prog, c.fn)
+                    ev2.set_site(c.bb)
+                    return any(pred == req['test'] and truth == req['truth'] and any(f == req['field'] for of, f in fields)
+                               for (locals_, fields, pred, truth) in ev2.tests)
+                if sites and all(site_has(c) for c in sites):
                     hit = True
             if not hit and prog is not None and fn.kind == 'Closure':
                 # the test was made by a `filter` the item passed before it reached this closure
